@@ -122,13 +122,19 @@ def judge (f out : List String) : Verdict :=
     let lenOk := c.pyLen.isEmpty || natOfStr c.pyLen == r.text.length
     match out with
     | ["ok", "openerr", gzOpen, leaked] =>
-      -- The gzip header is unreadable.  src read: uniprot.Read returned its error synchronously; RULING: that
-      -- error is the report, the returned channels are not to be consumed (they stay open), and no parser
-      -- goroutine may have been started.  src gz: the harness had no reader to hand to Parse — nothing ran.
+      -- uniprot.Read returned an error instead of starting the parser.  RULING: that is acceptable ONLY when the
+      -- archive cannot be opened at all — the gzip header itself is damaged (`gzOpen = "1"`: the harness's own
+      -- gzip.NewReader fails on the same bytes); then the error is the report, the returned channels are not to be
+      -- consumed, and no parser goroutine may have been started.  When the member opens (header intact) the
+      -- stream must be parsed as far as it goes: the entries that precede the damage are to be delivered, so an
+      -- error from Read is a FAILURE of clause 2 there.  src gz: the harness had no reader to hand to Parse —
+      -- nothing ran.
       if c.src == "read" || c.src == "read2" then
-        let j := isGzDamage c.dm && leaked == "0"
+        let j := isGzDamage c.dm && gzOpen == "1" && leaked == "0"
         { corr := gzOpen == "1" && lenOk, judge := some j, cls := base ++ "/openerr",
-          detail := if j then "" else "Read returned an error on an undamaged file, or left a goroutine behind" }
+          detail := if j then "" else
+            "Read returned an error although the gzip member can be opened (the entries before the damage are lost), " ++
+            "or on an undamaged file, or left a goroutine behind" }
       else { corr := gzOpen == "1" && lenOk, judge := none, cls := base ++ "/openerr-nothing-run", detail := "" }
     | "ok" :: "violation" :: reason :: more =>
       -- the parser finished but the harness saw what the property forbids for every stream: a value after
